@@ -3,3 +3,15 @@ reg("C29", "mc", "mc-harness", "model_checking",
     "Every schedule with at most k deviations (k iterated from 0; per-configuration bound reached is in the evidence) of 50+ pool scenarios (0-2 permanent workers, lingering or not, sequential/concurrent/blocking submitters, concurrent shutdown) is executed on the unmodified thread-pool source and checked: accepted tasks run exactly once and before await_shutdown returns, rejected tasks never run, post-shutdown submissions are rejected, no deadlock or livelock. A coverage statement over interleavings that sleep-based tests cannot force.",
     "Sequentially consistent interleavings at synchronisation operations only (all shared state in thread.rs is behind Mutex/Condvar; no atomics/unsafe). Trusts shuttle-engine's coroutine runtime, the mcshim Condvar/virtual-clock model and the import redirection done by mc/mirror.py (function bodies byte-identical). Small scope: <= 3 tasks, <= 2 submitters, deviation bound 2-3.",
     "DESIGN.md §3.2, §7 C29")
+
+reg("C28", "mc", "mc-harness", "model_checking",
+    "stateless model checking: preemption-bounded exhaustive DFS over schedules of concurrent handle_message calls on the real RRL code (seam mirror on a controlled scheduler)",
+    "Every schedule with at most k preemptions (k iterated from 0, bound reached per configuration in the evidence) of 2-3 threads x 1-2 identical UDP queries of one stream against the real Server with RRL is executed; in each, exactly min(requests, rate*window) full answers are sent and the rest dropped/slipped. A lost or double-counted bucket update needs two threads and one preemption, so the small scope covers the failure mode that 16 free-running OS threads could only sample.",
+    "Sequentially consistent interleavings at Mutex/RwLock operations; virtual clock frozen (all requests within one second). Trusts shuttle-engine, mcshim and the import redirection of mc/mirror.py. RandomState hashing is left as is (one stream => one bucket regardless of the hash).",
+    "DESIGN.md §3.2, §7 C28")
+
+reg("C32", "mc", "mc-harness", "model_checking",
+    "stateless model checking: preemption-bounded exhaustive DFS over schedules of queriers vs. a catalog/key-set swapper on the real Server (seam mirror on a controlled scheduler)",
+    "Every schedule with at most k preemptions (k iterated from 0) of plain and TSIG-signing queriers racing a thread that swaps catalog and key set is executed on the real Server::handle_message; each response must carry a single data generation in all of its sections, a request started after a swap returned must see the new data, and a signed exchange must be verified and signed under one secret (checked with an independent HMAC).",
+    "Sequentially consistent interleavings at RwLock operations (catalog and key set are each an RwLock<Arc<_>>). Trusts shuttle-engine, mcshim, the mirror's import redirection, and the harness's own SHA-256/HMAC (known-answer tested).",
+    "DESIGN.md §3.2, §7 C32")
